@@ -118,10 +118,12 @@ def faces_of_elements(src, element, ids):
     return set(int(x) for x in ids)
 
 
-def gen_selection(rng, src):
+def gen_selection(rng, src, force_lat=None):
     """returns dict(kind, args, expected=(min_set, max_set) of source faces, ordered=list or None)"""
     nf, nn, ne = len(src.rows), len(src.lon), len(src.edges)
     kind = rng.choice(["face", "face", "node", "edge", "bbox", "bbox", "circle", "knn", "lat", "lat", "lat"])
+    if force_lat is not None:
+        kind = "lat"
     if kind == "face":
         style = rng.choice(["unsorted", "scalar", "single", "all", "array", "sorted"])
         if style == "scalar":
@@ -214,6 +216,8 @@ def gen_selection(rng, src):
         lat = 0.0
     else:
         lat = rng.uniform(-89.9, 89.9)
+    if force_lat is not None:
+        style, lat = "forced", force_lat
     zc = math.sin(math.radians(lat))
     smin, smax = set(), set()
     for e, (a, b) in enumerate(src.edges):
@@ -524,7 +528,16 @@ def main(ck):
     big_done = 0
     for bi in range(1 if ck.tier == "quick" else 4):
         m = band_mesh(72 + 5 * bi, 30 + bi, -75.0 + bi, 75.0 - 2 * bi)
-        m.supplied_edges = None
+        # the source ships its edge table with the two meridional edges of one face LAST (any order is legitimate): a scan
+        # that loses the tail of the table loses exactly that face when the parallel passes through it
+        nlon_b, nlat_b = 72 + 5 * bi, 30 + bi
+        jf, if_ = rng.randrange(2, nlat_b - 2), rng.randrange(nlon_b)
+        tail_face = jf * nlon_b + if_
+        fn = m.faces[tail_face]
+        pairs = sorted({(min(a, b), max(a, b)) for f in m.faces for a, b in zip(f, f[1:] + f[:1])})
+        tail = [(min(fn[1], fn[2]), max(fn[1], fn[2])), (min(fn[3], fn[0]), max(fn[3], fn[0]))]      # the two meridional edges
+        pairs = [p_ for p_ in pairs if p_ not in tail] + tail
+        m.supplied_edges = [list(p_) for p_ in pairs]
         try:
             src = Src(m)
         except Exception as ex:
@@ -534,9 +547,9 @@ def main(ck):
             nthreads = max(1, min(nthreads, max_threads))
             sel = None
             while sel is None or sel["kind"] != "lat":
-                sel = gen_selection(rng, src)
-            case = {"mesh": {"band": [72 + 5 * bi, 30 + bi, -75.0 + bi, 75.0 - 2 * bi]}, "selection": describe(sel), "history": [],
-                    "threads": nthreads}
+                sel = gen_selection(rng, src, force_lat=(float(np.mean([src.lat[n] for n in fn])) if nthreads % 2 else None))
+            case = {"mesh": {"band": [72 + 5 * bi, 30 + bi, -75.0 + bi, 75.0 - 2 * bi], "supplied_edges": m.supplied_edges},
+                    "selection": describe(sel), "history": [], "threads": nthreads}
             ck.note_case((m.name, sel["lat"], nthreads), nontrivial=True)
             threads_used[nthreads] = threads_used.get(nthreads, 0) + 1
             g = mk_grid(m)
